@@ -6,6 +6,7 @@
 mod conv;
 mod r#gen;
 mod lin;
+mod total;
 mod rewrite;
 mod text;
 mod lp;
@@ -192,6 +193,23 @@ fn main() {
             for c in &cases {
                 writeln!(out, "{}", text::e2e_event(c)).unwrap();
             }
+        }
+        // total --cases F [--limit-ms N] : all stages per case in a child process (C18)
+        "total" => {
+            let cases = read_cases(&arg(&args, "--cases").expect("--cases"));
+            let limit: u64 = arg(&args, "--limit-ms").map(|s| s.parse().unwrap()).unwrap_or(5000);
+            let exe = std::env::current_exe().unwrap().to_string_lossy().to_string();
+            for c in &cases {
+                writeln!(out, "{}", total::run_case(&exe, c, std::time::Duration::from_millis(limit))).unwrap();
+            }
+        }
+        "total-one" => {
+            let mut src = String::new();
+            std::io::Read::read_to_string(&mut std::io::stdin(), &mut src).unwrap();
+            drop(out);
+            // run on a thread with a normal-sized stack: a stack overflow must be observable
+            total::run_one(&src);
+            std::process::exit(0);
         }
         _ => {
             eprintln!("usage: rv <lin> ...");
